@@ -1,4 +1,69 @@
-From KD Require Import C04.Model C04.Spec.
-(* placeholder until Proofs.v exists *)
-Theorem placeholder_C04 : True. Proof. exact I. Qed.
-Print Assumptions placeholder_C04.
+(* Property C04 — interleaved scheduler: main stream, batch cutting and stopping
+   point are exact.  Theorems only; proofs live in Proofs.v / Corollaries.v. *)
+From Coq Require Import ZArith List Bool.
+Import ListNotations.
+From KD Require Import C04.Model C04.Spec C04.Lists C04.Arith C04.Proofs C04.Corollaries C04.Example.
+Open Scope Z_scope.
+
+(* The model of _training_loop, started at any epoch boundary, IS the closed-form
+   run: epoch after epoch, announce e, show the epoch's updates (batch, then due
+   passes) up to and including the first one reaching the budget. *)
+Theorem c04_model_is_spec : forall c mi, WF c mi -> forall n e,
+  run c mi n (init_state e (upe c * e) (spe c * e)) = spec_run c mi e n.
+Proof. exact model_eq_spec. Qed.
+Print Assumptions c04_model_is_spec.
+
+(* the batches of epoch e: the first samples_per_epoch indices of the main
+   sampler's own iteration, cut by batch_size; only the last batch may be short;
+   there are updates_per_epoch of them *)
+Theorem c04_epoch_batches : forall c mi, WF c mi -> forall e,
+  concat (epoch_batches c mi e) = firstn (Z.to_nat (spe c)) (mi e) /\
+  shape (Z.to_nat (cB c)) (epoch_batches c mi e) /\
+  Z.of_nat (length (epoch_batches c mi e)) = upe c.
+Proof.
+  intros c mi W e. split; [|split].
+  - exact (epoch_batches_concat c mi W e).
+  - exact (epoch_batches_shape c mi W e).
+  - exact (epoch_batches_count c mi W e).
+Qed.
+Print Assumptions c04_epoch_batches.
+
+(* what is dropped: nothing without drop_last, else the remainder modulo the
+   dropping unit (drop_last_batch_size if given, else batch_size) *)
+Theorem c04_samples_per_epoch : forall c mi, WF c mi ->
+  if drop_last c
+  then let unit := or_default (cD c) (cB c) in spe c mod unit = 0 /\ spe c <= cN c < spe c + unit
+  else spe c = cN c.
+Proof. exact spe_spec. Qed.
+Print Assumptions c04_samples_per_epoch.
+
+(* the main part of every update is exactly its batch with only the last index flagged full *)
+Theorem c04_update_main_part : forall c e bs j,
+  filter is_main (u_events (upd_at c e bs j)) = emit Main (nth j bs []).
+Proof. exact update_main_part. Qed.
+Print Assumptions c04_update_main_part.
+
+(* the stop is exact: no shown update before the last reaches the budget; an
+   epoch that stops the run ends with an update that does; otherwise the whole
+   epoch is shown *)
+Theorem c04_stop_exact : forall c mi e,
+  let us := fst (take_until (hit c) (epoch_updates c mi e)) in
+  Forall (fun u => hit c u = false) (removelast us) /\
+  (epoch_hits c mi e = true -> exists u, us = removelast us ++ [u] /\ hit c u = true) /\
+  (epoch_hits c mi e = false -> us = epoch_updates c mi e /\ Forall (fun u => hit c u = false) us).
+Proof. exact stop_exact. Qed.
+Print Assumptions c04_stop_exact.
+
+(* it always ends: from every epoch boundary strictly before the budget the run
+   terminates within the fuel the model computes from the remaining budget *)
+Theorem c04_always_ends : forall c mi, WF c mi -> forall e, before_budget c e ->
+  exists tr, run c mi (default_fuel c (start_state c e)) (start_state c e) = Some tr.
+Proof. exact sampler_terminates. Qed.
+Print Assumptions c04_always_ends.
+
+(* non-vacuity: a well-formed configuration exists and is before its budget *)
+Example c04_premises_satisfiable : WF ex_cfg ex_iter /\ before_budget ex_cfg 0.
+Proof. split; [exact ex_wf|]. unfold before_budget. cbn. reflexivity. Qed.
+Example c04_example_run :
+  option_map (fun l => length l) (run ex_cfg ex_iter 4 (start_state ex_cfg 0)) = Some 40%nat.
+Proof. vm_compute. reflexivity. Qed.
